@@ -283,3 +283,52 @@ Proof.
   split; [vm_compute; reflexivity|]. split; [vm_compute; reflexivity|].
   intros [_ H]. vm_compute in H. discriminate H.
 Qed.
+
+(* ---------- nearest ray hit = exhaustive scan ---------- *)
+(* "res is what an exhaustive scan of the objects l with upper bound hi finds": no hit flag and an untouched
+   record exactly when no object is hit within the bound; otherwise the flag and the least Distance among
+   all objects hit within the bound (attained by some object of l) *)
+Definition nearest_answer (tv : nat -> option Q) (dist : nat -> Q) (l : list nat) (hi : Q) (res : bool * option Q) : Prop :=
+  match res with
+  | (true, Some d) => exists i, In i l /\ leaf_hit tv dist i hi = Some d /\
+                                forall j d', In j l -> leaf_hit tv dist j hi = Some d' -> d <= d'
+  | (false, None) => forall i, In i l -> leaf_hit tv dist i hi = None
+  | _ => False
+  end.
+
+Lemma is_best_nearest tv dist l hi res : is_best tv dist l hi (false, None) res -> nearest_answer tv dist l hi res.
+Proof.
+  intros [[-> N]|(i & d & -> & Hi & E & M)]; cbn [nearest_answer]; [exact N|].
+  exists i. split; [exact Hi|]. split; [exact E | exact M].
+Qed.
+
+(* HitList.Hit is the exhaustive scan (any order of the list, any range) *)
+Theorem list_hit_nearest_thm tv dist :
+  (forall i t, tv i = Some t -> dist i == t) ->
+  forall l hi, nearest_answer tv dist l hi (list_hit tv dist l hi false None).
+Proof. intros D l hi. apply is_best_nearest, list_best, D. Qed.
+
+(* BVHNode.Hit finds the nearest hit among ALL its objects although it skips every subtree whose box the
+   ray misses and searches the second child only up to the first child's hit *)
+Theorem bvh_hit_nearest_thm lbox tv dist ry lo :
+  (forall i t, tv i = Some t -> dist i == t) ->
+  (forall i t, tv i = Some t -> slab (lbox i) ry (lo, t) = true) ->
+  (forall i, wf_box (lbox i)) ->
+  forall t hi, binv lbox t -> nearest_answer tv dist (leaves t) hi (bhit tv dist ry lo t hi None).
+Proof. intros D H W t hi I. apply is_best_nearest, (bhit_best lbox tv dist ry lo D H W), I. Qed.
+
+Theorem bvh_built_hit_nearest_thm lbox srt tv dist ry lo :
+  (forall l, Permutation (srt l) l) ->
+  (forall i t, tv i = Some t -> dist i == t) ->
+  (forall i t, tv i = Some t -> slab (lbox i) ry (lo, t) = true) ->
+  (forall i, wf_box (lbox i)) ->
+  forall fuel objs t hi, bvh_build lbox srt fuel objs = Some t ->
+    nearest_answer tv dist objs hi (bhit tv dist ry lo t hi None).
+Proof.
+  intros P D H W fuel objs t hi B. destruct (bvh_build_ok lbox srt P fuel objs t B) as [I L].
+  pose proof (bvh_hit_nearest_thm lbox tv dist ry lo D H W t hi I) as N.
+  destruct (bhit tv dist ry lo t hi None) as [[|] [d|]]; cbn [nearest_answer] in *; try contradiction.
+  - destruct N as (i & Hi & E & M). exists i. split; [apply L, Hi|]. split; [exact E|].
+    intros j d' Hj. apply M, L, Hj.
+  - intros i Hi. apply N, L, Hi.
+Qed.
